@@ -208,6 +208,9 @@ func (e *Evaluator) processOperator(expression string, index int, op *Operator, 
 		}
 		e.operatorStack = e.operatorStack[:len(e.operatorStack)-1]
 		if stackOp.unaryOp != nil {
+			if len(e.operandStack) == 0 {
+				return -1, nil, errs.Newf("invalid expression at index %d", index)
+			}
 			left := e.operandStack[len(e.operandStack)-1]
 			e.operandStack = e.operandStack[:len(e.operandStack)-1]
 			e.operandStack = append(e.operandStack, &expressionTree{
